@@ -30,7 +30,29 @@ def run_property(prop: str, tier: str, root: str | None = None) -> int:
         rep = Report(prop, tier, level)
         rep.analysed["modules"] = prog.digests()
         rep.analysed["repo_root"] = prog.root
-        mod.run(prog, rep, tier)
+        # one budget for the whole analysis of the property (interpreters and rule code): beyond it the answer is
+        # "cannot decide" (exit 2) - never a hang
+        import time as _time
+        from . import frames as _frames
+        budget = float(os.environ.get("SA_MAX_TOTAL_SECONDS", "240"))
+        _frames.DEADLINE = _time.monotonic() + budget
+        import signal as _signal
+
+        def _on_alarm(_sig: int, _frm: object) -> None:
+            # raised wherever the main thread is (term traversals of rule code included); repeats every few seconds
+            # until it has escaped every handler on the way out
+            raise AnalysisError(f"analysis budget exceeded ({int(budget)} s for one property, SA_MAX_TOTAL_SECONDS): the paths / guards grew too large to handle")
+
+        have_alarm = hasattr(_signal, "setitimer")
+        if have_alarm:
+            _signal.signal(_signal.SIGALRM, _on_alarm)
+            _signal.setitimer(_signal.ITIMER_REAL, budget, 5.0)
+        try:
+            mod.run(prog, rep, tier)
+        finally:
+            if have_alarm:
+                _signal.setitimer(_signal.ITIMER_REAL, 0)
+            _frames.DEADLINE = None
         if tier == "thorough":
             from . import thorough
 
